@@ -73,6 +73,7 @@ class World:
         self.transitions = 0
         self.state_digests = set()
         self.mask_names = set(os.environ.get('FBMC_MASK', '').split()) if cfg == 'K1' else set()
+        self.twin_on = False     # compare every build with the implementation's own clean + cache-less build
         self.last_commit = None
 
     # -- lifecycle ------------------------------------------------------------
@@ -84,7 +85,36 @@ class World:
         self.last_commit = None
 
     def spec(self):
-        return {'cfg': self.cfg, 'steps': copy.deepcopy(self.steps)}
+        d = {'cfg': self.cfg, 'steps': copy.deepcopy(self.steps)}
+        if self.twin_on:
+            d['twin'] = True
+        return d
+
+    def twin(self, prog, versions):
+        """The reference execution of the property text, performed by the
+        implementation itself on the current state: delete the previous build's
+        outputs, cache file and emptied created directories (clean), then run
+        the program with no cache at all.  Returns (result, plain tree) or None
+        when clean itself fails; the caller restores the state."""
+        sb = self.sb
+        if os.path.isdir(self.cache):
+            return None
+        with faults.paused():
+            if os.path.isfile(self.cache):
+                try:
+                    self.FileBuilder.clean(self.cache, BUILD_NAME)
+                except Exception:
+                    return None
+            it = Interp(prog, versions, None)
+            log = {'bf_paths': [], 'answers': 0, 'mask': self.mask_names}
+
+            def root(b):
+                return it.root(RealApi(self.fb, sb, b, None, log, root=True))
+            try:
+                res = ('ok', self.FileBuilder.build_versioned(self.cache, BUILD_NAME, versions, root))
+            except Exception as e:
+                res = ('exc', type(e).__name__)
+            return res, uni.plain(uni.snap(sb.R), self.cache_rel)
 
     def save(self):
         return (self.sb.save(), self.ref.fs.copy(), copy.deepcopy(self.ref.rec),
@@ -139,6 +169,12 @@ class World:
             step['fault'] = fault
         self.steps.append(step)
         versions = versions or {}
+        tw = None
+        if self.twin_on and crash_at is None and fault is None:
+            h2 = sb.save()
+            tw = self.twin(prog, versions)
+            sb.restore(h2)
+            sb.drop(h2)
         res.before = uni.snap(sb.R)
         tmp_before = sb.tmp_listing()
         clock0 = sb.clock
@@ -200,6 +236,17 @@ class World:
             bad = cache_comparison_mismatches(res.after, self.cache_rel, sb)
             if bad:
                 res.violations.append(viol('cachecmp.recorded_result_differs_from_the_file', {'comparison': bad[0][1]}, records=bad[:3]))
+        if tw is not None:
+            self.twin_runs = getattr(self, 'twin_runs', 0) + 1
+            if not self._agrees(res.real, tw[0]):
+                res.violations.append(viol('twin.result', {'incremental': res.real[0] if res.real[0] == 'ok' else res.real[1],
+                                                           'from_scratch': tw[0][0] if tw[0][0] == 'ok' else tw[0][1]},
+                                           diff=first_diff(res.real[1], tw[0][1]) if res.real[0] == tw[0][0] == 'ok' else None))
+            elif res.real[0] == 'ok' and uni.plain(res.after, self.cache_rel) != tw[1]:
+                # (a build that raises rolls back to its own start state, which for the reference
+                # execution is the state after the deletions: only the exception type is compared)
+                a, b = uni.plain(res.after, self.cache_rel), tw[1]
+                res.violations.append(viol('twin.tree', {}, differing=sorted(p for p in set(a) | set(b) if a.get(p) != b.get(p))[:6]))
         res.real_inv = it.invocations
         res.npoints = it.npoints
         res.bf_paths = log['bf_paths']
@@ -657,6 +704,7 @@ def run_spec(world, spec, upto=None):
     world.cache_rel = CFG[world.cfg]
     world.cache = world.sb.p(world.cache_rel)
     world.mask_names = set(os.environ.get('FBMC_MASK', '').split()) if world.cfg == 'K1' else set()
+    world.twin_on = bool(spec.get('twin'))
     world.start()
     out = []
     for st in spec['steps'][:upto]:
